@@ -225,7 +225,8 @@ impl Prop for PExec {
                     }
                 }
                 v["rlimit_stack"] = json!(*rng.pick(&[512u64 * 1024, 600 * 1024]));
-                v["script"] = json!([0, *rng.pick(&[0u64, 1])]);
+                // an invocation dispatched in the middle of the walk fails more often than not
+                v["script"] = json!([*rng.pick(&[0u64, 0, 1]), *rng.pick(&[0u64, 1, 1]), *rng.pick(&[0u64, 1])]);
             } else if rng.chance(1, 3) && n > 2 {
                 // -quit on some entry without glob characters in its path
                 let k = 2 + rng.below(n - 1);
